@@ -11,6 +11,14 @@ int <power-list> <dt> <weight>          -> ok | err value
 read                                    -> ok <image-list>            (noiseless: `step`)
                                            ok <image-list> off|on     (noisy: `pStep`; the flag is `PSt.off` before the read-out)
                                            ok random off|on           (noisy with photon or read noise on)
+
+reference-level model of the noiseless detector (`rStep`; a handle is the position in the list of references
+handed to the caller, counted from 0 in the order `ralloc` / `rread` hand them out):
+ralloc <list>                           the caller creates a power buffer       -> ok
+rwrite <handle> <list>                  the caller overwrites an array it holds -> ok | err ref
+rint <handle> <dt> <weight>             integrate with that buffer              -> ok | err value
+rread                                   -> ok <image-list>   (the new array, as it is when returned)
+rdump                                   -> ok <[ref,…]> <list;list;…>  references and present contents of all handles
 ```
 -/
 namespace HcipyVerif.Driver.C17
@@ -24,6 +32,7 @@ structure St where
   geom : Geom := { dims := [] }
   st : Detector.St Rat := {}
   pst : PSt Rat := { flat := [], dark := [], sigma := [] }
+  rst : RSt Rat := {}
 
 def showObs : Obs Rat → String
   | .done => "ok"
@@ -70,6 +79,40 @@ def step (st : St) : List String → St × String
     | some p, some dt, some w => apply st (.integrate p dt w)
     | _, _, _ => (st, "bad-op")
   | ["read"] => apply st .readOut
+  | ["ralloc", v] =>
+    if st.kind != .noiseless then (st, "bad-op") else
+    match parseRatList? v with
+    | some v => ({ st with rst := (rStep st.geom st.rst (.alloc v)).1 }, "ok")
+    | none => (st, "bad-op")
+  | ["rwrite", k, v] =>
+    if st.kind != .noiseless then (st, "bad-op") else
+    match parseNat? k, parseRatList? v with
+    | some k, some v =>
+      match st.rst.known[k]? with
+      | some r =>
+        let res := rStep st.geom st.rst (.write r v)
+        ({ st with rst := res.1 }, if res.2 = .done then "ok" else "err ref")
+      | none => (st, "err ref")
+    | _, _ => (st, "bad-op")
+  | ["rint", k, dt, w] =>
+    if st.kind != .noiseless then (st, "bad-op") else
+    match parseNat? k, parseRat? dt, parseRat? w with
+    | some k, some dt, some w =>
+      match st.rst.known[k]? with
+      | some r =>
+        let res := rStep st.geom st.rst (.integrate r dt w)
+        ({ st with rst := res.1 }, if res.2 = .done then "ok" else "err value")
+      | none => (st, "err ref")
+    | _, _, _ => (st, "bad-op")
+  | ["rread"] =>
+    if st.kind != .noiseless then (st, "bad-op") else
+    let res := rStep st.geom st.rst .readOut
+    match res.2 with
+    | .ref r => ({ st with rst := res.1 }, "ok " ++ showRatList (res.1.at r))
+    | _ => (st, "bad-op")
+  | ["rdump"] =>
+    if st.kind != .noiseless then (st, "bad-op") else
+    (st, "ok " ++ showNatList st.rst.known ++ " " ++ showRatLists (st.rst.known.map st.rst.at))
   | ["set", "photon", b] =>
     if st.kind != .noisy then (st, "bad-op") else
     match b with
